@@ -57,6 +57,91 @@ func writeOrderFacts(sb *strings.Builder) {
 		}
 	}
 	fmt.Fprintf(sb, "def flushNoticeClears : Nat := %d\n", writes)
+	// read-modify-write sections (C05, C13): a mutator of the index / freelist / primary pool acquires its lock exactly once,
+	// exclusively, and every access to the struct's data and every call to its methods inside the function holds it
+	immutableField := map[string]bool{}
+	for f := range fieldKind {
+		immutableField[f] = true
+	}
+	for _, r := range rows {
+		if r.write {
+			immutableField[r.field] = false // written after construction by some entry point
+		}
+	}
+	// does a function (or anything it calls) touch data of the struct that is written after construction?
+	touchMemo := map[string]bool{}
+	var touches func(fn, strct string, depth int) bool
+	touches = func(fn, strct string, depth int) bool {
+		key := fn + "|" + strct
+		if v, ok := touchMemo[key]; ok {
+			return v
+		}
+		touchMemo[key] = false
+		fi := funcs[fn]
+		if fi == nil || depth > 8 {
+			return false
+		}
+		res := false
+		for _, ac := range fi.accesses {
+			if strings.HasPrefix(ac.field, strct+".") && !immutableField[ac.field] {
+				res = true
+			}
+		}
+		for _, c := range fi.calls {
+			for _, t := range resolve(c.callee) {
+				if touches(t, strct, depth+1) {
+					res = true
+				}
+			}
+		}
+		touchMemo[key] = res
+		return res
+	}
+	rmw := func(fn, lock, strct string) string {
+		fi := funcs[fn]
+		if fi == nil {
+			return fmt.Sprintf("(%q, 0, 0, false, 0)", fn)
+		}
+		a := fi.acquires[lock]
+		ok := true
+		n := 0
+		for _, ac := range fi.accesses {
+			if strings.HasPrefix(ac.field, strct+".") && fieldKind[ac.field] == "data" && !immutableField[ac.field] {
+				n++
+				if holds(ac.locks, lock) != "w" {
+					ok = false
+				}
+			}
+		}
+		for _, c := range fi.calls {
+			if strings.HasPrefix(c.callee, strct+".") && touches(c.callee, strct, 0) {
+				n++
+				if holds(c.locks, lock) != "w" {
+					ok = false
+				}
+			}
+		}
+		return fmt.Sprintf("(%q, %d, %d, %v, %d)", fn, a[0], a[1], ok, n)
+	}
+	fmt.Fprintf(sb, "/-- (function, Lock() call sites, RLock() call sites, every access and method call of the struct holds the lock exclusively, their number) -/\n")
+	fmt.Fprintf(sb, "def rmwSections : List (String × Nat × Nat × Bool × Nat) := [%s]\n", strings.Join([]string{
+		rmw("Index.Put", "Index.bucketLk", "Index"), rmw("Index.Update", "Index.bucketLk", "Index"), rmw("Index.Remove", "Index.bucketLk", "Index"),
+		rmw("Index.Relocate", "Index.bucketLk", "Index"),
+		rmw("FreeList.Put", "FreeList.poolLk", "FreeList"), rmw("MultihashPrimary.Put", "MultihashPrimary.poolLk", "MultihashPrimary"),
+	}, ", "))
+	// Store.flushTick: every access to the flush notice holds rateLk exclusively (register = test and create in one section)
+	ftOK, ftN := true, 0
+	if fi := funcs["Store.flushTick"]; fi != nil {
+		for _, ac := range fi.chanAccesses {
+			if ac.field == "Store.flushNotice" {
+				ftN++
+				if holds(ac.locks, "Store.rateLk") != "w" {
+					ftOK = false
+				}
+			}
+		}
+	}
+	fmt.Fprintf(sb, "def flushTickNoticeExclusive : Bool := %v\ndef flushTickNoticeAccesses : Nat := %d\n", ftOK, ftN)
 	// goroutine shapes (C17): the loops close their done channel, Close waits for it
 	has := func(fn, ch string) bool {
 		fi := funcs[fn]
